@@ -34,6 +34,7 @@ class LB:
         self.checker_cmd = ""
         self.trusted_base: list[str] = []
         self.infra_error: str | None = None
+        self.unrelated: list[str] = []   # translation problems in generated modules this property does not use
 
 
 def _lake(args: list[str], timeout=3000) -> subprocess.CompletedProcess:
@@ -115,7 +116,7 @@ def stmt_hash(s: str) -> str:
 
 
 SPEC_FILES = ["DafRel/Model/Sem.lean", "DafRel/Spec/Preds.lean", "DafRel/Spec/History.lean",
-              "DafRel/Spec/Commute.lean", "DafRel/Spec/Backtrack.lean", "DafRel/Spec/Select.lean", "DafRel/Spec/SqlCompile.lean"]
+              "DafRel/Spec/Commute.lean", "DafRel/Spec/Backtrack.lean", "DafRel/Spec/Select.lean", "DafRel/Spec/SqlCompile.lean", "DafRel/Spec/Processor.lean"]
 
 
 def spec_hashes() -> dict[str, str]:
@@ -144,7 +145,23 @@ def load_obligations() -> dict:
     return {}
 
 
-def run_extract(lb: LB) -> None:
+def gen_modules_of(prop: str) -> set[str]:
+    """Names of the generated modules (`DafRel/Gen/<name>.lean`) in the import closure of `Props/<prop>.lean`:
+    a translation problem concerns a property only if one of its theorems depends on the generated code."""
+    seen: set[str] = set()
+    stack = [f"DafRel.Props.{prop}"]
+    while stack:
+        m = stack.pop()
+        if m in seen:
+            continue
+        seen.add(m)
+        path = os.path.join(LEAN, *m.split(".")) + ".lean"
+        if os.path.exists(path):
+            stack += re.findall(r"^import (DafRel\.\S+)", open(path).read(), re.M)
+    return {m.split(".")[-1] for m in seen if m.startswith("DafRel.Gen.")}
+
+
+def run_extract(lb: LB, prop: str | None = None) -> None:
     ext = os.path.join(HERE, "extract.py")
     if not os.path.exists(ext):
         return
@@ -152,9 +169,15 @@ def run_extract(lb: LB) -> None:
     if r.returncode != 0:
         lb.infra_error = "translator crashed: " + r.stderr[-1500:]
         return
+    relevant = gen_modules_of(prop) if prop else None
     for ln in r.stdout.splitlines():
         if ln.startswith("UNTRANSLATABLE "):
-            lb.broken.append("translator: " + ln[len("UNTRANSLATABLE "):])
+            what = ln[len("UNTRANSLATABLE "):]
+            m = re.match(r"\[(\w+)\] ", what)
+            if m and relevant is not None and m.group(1) not in relevant:
+                lb.unrelated.append(what)     # recorded in the evidence, not a broken obligation of this property
+                continue
+            lb.broken.append("translator: " + what)
 
 
 def build_and_audit(prop: str, thorough: bool = False) -> LB:
@@ -165,7 +188,7 @@ def build_and_audit(prop: str, thorough: bool = False) -> LB:
         "harness/extract.py (Python AST -> PyLite Lean terms) and the PyLite value semantics in lean/DafRel/PyLite.lean",
     ]
     with _Lock():
-        run_extract(lb)
+        run_extract(lb, prop)
         if lb.infra_error:
             return lb
         r = _lake(["build", "driver"])
